@@ -531,6 +531,8 @@ class Engine:
             return [(st, ZV(m.get(ki), 'hv'))]
         if isinstance(recv, (Lst, Tup)) and isinstance(k, C) and isinstance(k.v, int):
             return [(st, recv.items[k.v])]
+        if isinstance(recv, Obj) and recv.kind in ('pymap', 'combo'):
+            return [(st, self.contract.pymap_lookup(self, st, recv, k))]
         raise OutOfSubset(f"subscript on {type(recv).__name__}", node)
 
     def e_Call(self, e, st):
